@@ -126,8 +126,22 @@ type linState struct {
 	step int
 }
 
+func (r *refLinear) liveBytes() int {
+	n := 0
+	for _, l := range [][]refEnt{r.lower, r.upper, r.ring} {
+		for _, e := range l {
+			n += e.size
+		}
+	}
+	return n
+}
+
 func (s *linState) check(tag string) {
 	switch s.prop {
+	case pC16:
+		// the space accounted as free is what the reference model says is not occupied by live allocations
+		verifAssert("C16/linear/free-bytes-as-reference", s.m.SumFreeSize() == s.B-s.ref.liveBytes())
+		verifAssert("C16/linear/live-count-as-reference", s.m.AllocationCount() == len(s.ref.lower)+len(s.ref.upper)+len(s.ref.ring))
 	case pC01:
 		oracleC01("C01/linear/"+tag, s.m, s.live, s.B, false)
 	case pC03:
